@@ -843,6 +843,14 @@ func (bc *BlockChain) WriteBlockWithState(block *types.Block, state *state.State
 		rawdb.WriteReceipts(batch, block.Hash(), block.NumberU64(), receipts)
 	}
 
+	// A block that is already part of the canonical chain at or below the head (it was
+	// executed again because its state was missing) must not become the head again:
+	// that would drop its canonical descendants.  Only its state and receipts are new.
+	if cur := bc.CurrentBlock(); block.NumberU64() <= cur.NumberU64() &&
+		rawdb.ReadCanonicalHash(bc.db, block.NumberU64()) == block.Hash() {
+		return batch.Write()
+	}
+
 	var newChain types.Blocks
 	if block.ParentHash() != bc.CurrentBlock().Hash() {
 		// Reorganise the chain if the parent is not the head block
